@@ -123,10 +123,11 @@ class Episode:
         self.probe = True
         self.coarse_clock = False   # datetime.now() with 1/64 s resolution: queue entries' time stamps tie
         self.hop = False            # packets reach the protocol through one call_soon hop (as from the real transports)
+        self.alerts_lost = 0        # so many impersonation notices (7FFF) get no echo
 
     def to_json(self) -> dict:
         return {"mode": self.mode, "calls": self.calls, "tx": {f"{k[0]}:{k[1]}": v for k, v in self.tx.items()},
-                "events": self.events, "coarse_clock": self.coarse_clock, "hop": self.hop}
+                "events": self.events, "coarse_clock": self.coarse_clock, "hop": self.hop, "alerts_lost": self.alerts_lost}
 
     @staticmethod
     def from_json(d: dict) -> "Episode":
@@ -137,6 +138,7 @@ class Episode:
         e.events = [tuple(x) for x in d["events"]]
         e.coarse_clock = bool(d.get("coarse_clock", False))
         e.hop = bool(d.get("hop", False))
+        e.alerts_lost = int(d.get("alerts_lost", 0))
         return e
 
 
@@ -266,6 +268,8 @@ def run_episode(ep: Episode) -> Result:
         F.dt = VClockDt
         protocol = protocol_factory(lambda m: None, disable_qos=ep.mode)
         tx_count: dict = {}
+        alerts_to_lose = [ep.alerts_lost]
+        rig_gave_up = [False]
 
         class FakeTransport:
             closing = False
@@ -287,12 +291,19 @@ def run_episode(ep: Episode) -> Result:
                 res.writes.append((now, str(frame)))
                 res.write_calls.append(getattr(frame, "call", None))
                 idx = next((i for i, (q, _) in enumerate(POOL) if q == frame), None)
+                if idx is None and " 7FFF " in frame and alerts_to_lose[0] > 0:
+                    alerts_to_lose[0] -= 1          # the notice sent ahead of a faked device's command gets no echo
+                    return
                 if idx is None:
                     # an impersonation alert or the probe: echo promptly
                     loop.call_at(now + 0.02, protocol.pkt_received, Packet.from_port(VClockDt.now(), "000 " + frame.replace(HGI, GWY)))
                     return
                 n = tx_count[idx] = tx_count.get(idx, 0) + 1
                 sc = ep.tx.get((idx, n), {"echo": 0.02, "reply": 0.1, "dup": False, "fail": False})
+                if sc["fail"] == "oserror":
+                    raise OSError(5, "Input/output error (scripted)")      # what a dying serial port / socket raises
+                if sc["fail"] == "attr":
+                    raise AttributeError("'NoneType' object has no attribute 'write' (scripted)")
                 if sc["fail"]:
                     raise exc.TransportError("write failed (scripted)")
                 def deliver_now(kind, pkt):
@@ -376,14 +387,18 @@ def run_episode(ep: Episode) -> Result:
             except Exception as e:  # noqa: BLE001
                 res.outcomes[i] = (loop.time(), "err", type(e).__name__ + ":" + ",".join(k.__name__ for k in type(e).__mro__[1:4]))
             except asyncio.CancelledError as e:
+                if rig_gave_up[0]:
+                    raise        # (the rig's own cut-off after 200 s: this caller was never answered)
                 # nobody cancelled this caller: the cancellation comes out of send_cmd itself
                 res.outcomes[i] = (loop.time(), "err", type(e).__name__ + ":" + ",".join(k.__name__ for k in type(e).__mro__[1:4]))
 
         tasks = [loop.create_task(caller(i, c)) for i, c in enumerate(ep.calls)]
-        try:
-            await asyncio.wait_for(asyncio.gather(*tasks, return_exceptions=True), timeout=200)
-        except TimeoutError:
-            pass
+        done_, pending_ = await asyncio.wait(tasks, timeout=200)
+        if pending_:
+            rig_gave_up[0] = True
+            for t_ in pending_:
+                t_.cancel()
+            await asyncio.wait(pending_, timeout=1)
         # let the machine come to rest
         await asyncio.sleep(30)
         res.final_state = type(ctx._state).__name__
